@@ -5,6 +5,7 @@ package libschema
 
 import (
 	"fmt"
+	"math"
 	"regexp"
 	"sync/atomic"
 
@@ -749,19 +750,82 @@ func builtinLenLessThanOrEqual(_ *lisp.LEnv, args *lisp.LVal) *lisp.LVal {
 	return lenConstraint(args, func(length, comparison int) bool { return length > comparison })
 }
 
+// compareNumbers compares two numbers exactly and reports -1, 0 or 1 as a is
+// less than, equal to or greater than b.  Two ints are compared as ints: going
+// through float64 rounds integers beyond 2^53, so that (s:gte 9007199254740993)
+// accepted 9007199254740992 and (s:gt 9007199254740992) refused
+// 9007199254740993.  An int and a float are compared without rounding the int.
+// The second result is false if either value is not a number or is NaN.
+func compareNumbers(a, b *lisp.LVal) (int, bool) {
+	if a.Type == lisp.LInt && b.Type == lisp.LInt {
+		switch {
+		case a.Int < b.Int:
+			return -1, true
+		case a.Int > b.Int:
+			return 1, true
+		}
+		return 0, true
+	}
+	if a.Type == lisp.LInt && b.Type == lisp.LFloat {
+		return compareIntFloat(a.Int, b.Float)
+	}
+	if a.Type == lisp.LFloat && b.Type == lisp.LInt {
+		c, ok := compareIntFloat(b.Int, a.Float)
+		return -c, ok
+	}
+	x, ok := lisp.GoFloat64(a)
+	if !ok {
+		return 0, false
+	}
+	y, ok := lisp.GoFloat64(b)
+	if !ok || math.IsNaN(x) || math.IsNaN(y) {
+		return 0, false
+	}
+	switch {
+	case x < y:
+		return -1, true
+	case x > y:
+		return 1, true
+	}
+	return 0, true
+}
+
+func compareIntFloat(i int, f float64) (int, bool) {
+	switch {
+	case math.IsNaN(f):
+		return 0, false
+	case f >= 9223372036854775808.0:
+		return -1, true
+	case f < -9223372036854775808.0:
+		return 1, true
+	}
+	whole := math.Trunc(f) // |whole| < 2^63: converts exactly
+	switch {
+	case int64(i) < int64(whole):
+		return -1, true
+	case int64(i) > int64(whole):
+		return 1, true
+	case f > whole:
+		return -1, true
+	case f < whole:
+		return 1, true
+	}
+	return 0, true
+}
+
 // Checks value is greater than specified value
 func builtinGreaterThan(_ *lisp.LEnv, args *lisp.LVal) *lisp.LVal {
-	comparison, ok := lisp.GoFloat64(args.Cells[0])
-	if !ok {
+	bound := args.Cells[0]
+	if _, ok := lisp.GoFloat64(bound); !ok {
 		return lisp.ErrorConditionf(FailedConstraint, "You cannot compare %v to a number", args.Cells[0])
 	}
 	// NB these aren't normal functions - they aren't looking for an array of args
 	return newValidator(lisp.Formals("input"), func(env *lisp.LEnv, input *lisp.LVal) *lisp.LVal {
-		compareTo, ok := lisp.GoFloat64(input)
+		cmp, ok := compareNumbers(input, bound)
 		if !ok {
 			return lisp.ErrorConditionf(FailedConstraint, "Value cannot be compared")
 		}
-		if comparison >= compareTo {
+		if cmp <= 0 {
 			return lisp.ErrorConditionf(FailedConstraint, "Supplied value was less than the allowed value")
 		}
 		return lisp.Nil()
@@ -770,18 +834,18 @@ func builtinGreaterThan(_ *lisp.LEnv, args *lisp.LVal) *lisp.LVal {
 
 // Checks value is greater or equal than specified value
 func builtinGreaterThanOrEqual(_ *lisp.LEnv, args *lisp.LVal) *lisp.LVal {
-	comparison, ok := lisp.GoFloat64(args.Cells[0])
-	if !ok {
+	bound := args.Cells[0]
+	if _, ok := lisp.GoFloat64(bound); !ok {
 		return lisp.ErrorConditionf(FailedConstraint, "You cannot compare %v to a number", args.Cells[0])
 	}
 	// NB these aren't normal functions - they aren't looking for an array of args
 	return newValidator(lisp.Formals("input"), func(env *lisp.LEnv, input *lisp.LVal) *lisp.LVal {
-		compareTo, ok := lisp.GoFloat64(input)
+		cmp, ok := compareNumbers(input, bound)
 		if !ok {
 			return lisp.ErrorConditionf(FailedConstraint, "Value cannot be compared")
 		}
-		if comparison > compareTo {
-			return lisp.ErrorConditionf(FailedConstraint, "Supplied value %v was less than the allowed value %v", compareTo, comparison)
+		if cmp < 0 {
+			return lisp.ErrorConditionf(FailedConstraint, "Supplied value %v was less than the allowed value %v", input, bound)
 		}
 		return lisp.Nil()
 	})
@@ -789,17 +853,17 @@ func builtinGreaterThanOrEqual(_ *lisp.LEnv, args *lisp.LVal) *lisp.LVal {
 
 // Checks value is less than specified value
 func builtinLessThan(_ *lisp.LEnv, args *lisp.LVal) *lisp.LVal {
-	comparison, ok := lisp.GoFloat64(args.Cells[0])
-	if !ok {
+	bound := args.Cells[0]
+	if _, ok := lisp.GoFloat64(bound); !ok {
 		return lisp.ErrorConditionf(FailedConstraint, "You cannot compare %v to a number", args.Cells[0])
 	}
 	// NB these aren't normal functions - they aren't looking for an array of args
 	return newValidator(lisp.Formals("input"), func(env *lisp.LEnv, input *lisp.LVal) *lisp.LVal {
-		compareTo, ok := lisp.GoFloat64(input)
+		cmp, ok := compareNumbers(input, bound)
 		if !ok {
 			return lisp.ErrorConditionf(FailedConstraint, "Value cannot be compared")
 		}
-		if comparison <= compareTo {
+		if cmp >= 0 {
 			return lisp.ErrorConditionf(FailedConstraint, "Supplied value was greater than the allowed value")
 		}
 		return lisp.Nil()
@@ -808,17 +872,17 @@ func builtinLessThan(_ *lisp.LEnv, args *lisp.LVal) *lisp.LVal {
 
 // Checks value is less than or equal specified value
 func builtinLessThanOrEqual(_ *lisp.LEnv, args *lisp.LVal) *lisp.LVal {
-	comparison, ok := lisp.GoFloat64(args.Cells[0])
-	if !ok {
+	bound := args.Cells[0]
+	if _, ok := lisp.GoFloat64(bound); !ok {
 		return lisp.ErrorConditionf(FailedConstraint, "You cannot compare %v to a number", args.Cells[0])
 	}
 	// NB these aren't normal functions - they aren't looking for an array of args
 	return newValidator(lisp.Formals("input"), func(env *lisp.LEnv, input *lisp.LVal) *lisp.LVal {
-		compareTo, ok := lisp.GoFloat64(input)
+		cmp, ok := compareNumbers(input, bound)
 		if !ok {
 			return lisp.ErrorConditionf(FailedConstraint, "Value cannot be compared")
 		}
-		if comparison < compareTo {
+		if cmp > 0 {
 			return lisp.ErrorConditionf(FailedConstraint, "Supplied value was greater than the allowed value")
 		}
 		return lisp.Nil()
